@@ -307,7 +307,8 @@ x.dt.zone.tld. 300 IN A 192.0.2.33\n";
 unsigned.tld. 3600 IN NS ns.unsigned.tld.\n\
 ns.unsigned.tld. 3600 IN A 198.51.100.4\n\
 host.unsigned.tld. 300 IN A 203.0.113.1\n\
-host.unsigned.tld. 300 IN TXT \"insecure\"\n";
+host.unsigned.tld. 300 IN TXT \"insecure\"\n\
+dn.unsigned.tld. 300 IN DNAME zone.tld.\n";
     let evil_text = "evil.tld. 3600 IN SOA ns.evil.tld. admin.evil.tld. 1 7200 3600 86400 300\n\
 evil.tld. 3600 IN NS ns.evil.tld.\n\
 ns.evil.tld. 3600 IN A 198.51.100.66\n";
